@@ -18,8 +18,9 @@ def _tiefree(draw, max_size=12):
     n = draw(st.integers(1, max_size))
     m = draw(st.integers(1, max_size))
     ks = draw(st.lists(st.integers(-2000, 2000), min_size=n + m, max_size=n + m, unique=True))
-    a = draw(st.sampled_from([1.0, 0.5, 0.25, 3.0, 0.1, 7.3, 1000.0, 1e-3]))
-    b = draw(st.sampled_from([0.0, 1.0, -17.5, 0.3, 1234.5]))
+    a = draw(st.sampled_from([1.0, 0.5, 0.25, 3.0, 0.1, 7.3, 1000.0, 1e-3, 1e-6, 1e-9, 1e6]))
+    # fine scales only around 0 so that the separation stays far above one ulp
+    b = draw(st.sampled_from([0.0, 1.0, -17.5, 0.3, 1234.5])) if a >= 1e-3 else 0.0
     arr = draw(st.sampled_from(ARRS))
     s = sorted(ks)
     if arr == "mixed":
@@ -34,7 +35,7 @@ def _tiefree(draw, max_size=12):
             pos[-1], neg[0] = neg[0], pos[-1]
     ez = st.one_of(st.just(0), st.just(0), st.integers(1, 5), st.integers(6, 200))
     return dict(kpos=list(pos), kneg=list(neg), a=a, b=b, ep=draw(ez), en=draw(ez), arr=arr,
-                a2=draw(st.sampled_from([0.5, 2.0, 3.0, 0.1, 7.3])),
+                a2=draw(st.sampled_from([0.5, 2.0, 3.0, 0.1, 7.3, 1e-4, 1e-7, 1e4])),
                 b2=draw(st.floats(min_value=-50, max_value=50)))
 
 
@@ -53,6 +54,8 @@ def check_crossing(case):
     P, Nn = len(pos) + ep, len(neg) + en
     rng = max(pos + neg) - min(pos + neg) + a
     a2, b2 = case["a2"], case["b2"]
+    if a * a2 < 1e-6:
+        b2 = 0.0  # keep the mapped scores far more than one ulp apart
     overlap = False
     for sc, ec in CONFIGS:
         ctx = f"config={sc}/{ec}"
